@@ -369,7 +369,7 @@ example : ((Alerts.run ⟨1, false⟩ (Alerts.init [5, 6, 7] 1)
     [0, 0, 0, 0, 0, 0, 0, 0, 1, 0, 0, 0, 0, 1, 1, 1, 1, 1]).readers 0).outs = [[0, 7]] := by
   decide
 
-/-! ## 3'. status and error text of one operation (finding K18a) -/
+/-! ## 3'. status and error text of one operation (finding K18a / K17, fixed by add9366) -/
 
 /-- read in ONE critical section, the (phase, error) pair is always a pair the writer wrote -/
 theorem pair_read_atomic (sched : List Bool) :
@@ -407,8 +407,8 @@ theorem pair_read_atomic (sched : List Bool) :
             | some w => simp only; rw [hp, he]; rw [hp, he] at h2; exact h2
   exact key sched {} rfl rfl
 
-/-- REFUTED for the code as it is (two critical sections): the writer's section in between gives
-the old phase with the new error text — a `pinning` PinInfo carrying the failure's message -/
+/-- REFUTED for the code before add9366 (two critical sections): the writer's section in between
+gives the old phase with the new error text — a `pinning` PinInfo carrying the failure's message -/
 example : ((PairRead.run true [false, true, false]).gotPhase, (PairRead.run true [false, true, false]).gotErr)
     = (some 0, some 1) := by decide
 
@@ -427,6 +427,11 @@ theorem gen_lock_order_acyclic : acyclicB Gen.edges = true := by decide
 /-- the extractor understood every construct of every function that touches a designated field
 or a mutex (fail closed) -/
 theorem gen_no_unrecognised_shapes : Gen.problems = [] := by decide
+
+/-- the functions that build a PinInfo read phase, error text and timestamp of an operation in ONE
+critical section of its mutex (so `pair_read_atomic`, not the refuted two-section reading, is the
+model of today's `unsafePinInfo`) -/
+theorem gen_snapshots_atomic : snapshotsOK Gen.snapshots = true := by decide
 
 /-- the table is not vacuous -/
 theorem gen_table_nonempty : 60 ≤ Gen.accesses.length ∧ 5 ≤ Gen.edges.length ∧ 15 ≤ Gen.guards.length := by decide
